@@ -224,6 +224,81 @@ def check_rsvd(case):
     return out
 
 
+# ----------------------------------------------------------------------------
+# clause: sketches wider than 32 columns (R + oversample = 33..46 on matrices with both dimensions above that), and
+# extreme overall magnitudes (1e+-160 .. 1e+-250: representable values whose squares are not).  Inputs have EXACTLY
+# rank R with prescribed, well separated singular values 0.8^t and exactly orthonormal quaternion factors (two PRNG
+# Householder reflectors each), i.e. they lie outside every known-finding class; the library sees A * 2^p, the oracle A.
+
+
+@st.composite
+def wide_sketch_cases(draw, tier):
+    extreme = draw(st.integers(0, 2)) == 0
+    if extreme:
+        m, n, R = draw(st.integers(4, 12)), draw(st.integers(4, 12)), draw(st.integers(1, 4))
+        P = draw(st.sampled_from([0, 2, 10]))
+        e10 = draw(st.sampled_from([-250, -200, -160, 160, 200, 250]))
+    else:
+        R = draw(st.integers(24, 34))
+        P = draw(st.sampled_from([10, 10, 12]))
+        m, n = draw(st.integers(R + P + 1, 90)), draw(st.integers(R + P + 1, 70))
+        e10 = 0
+    R = min(R, m, n)
+    return {"m": m, "n": n, "R": R, "P": P, "p": int(round(e10 * np.log2(10.0))), "mseed": draw(gen.seeds()),
+            "algo": draw(st.sampled_from(["rand_qsvd", "pass_eff_qsvd"])), "n_iter": draw(st.sampled_from([0, 1, 2])),
+            "n_passes": draw(st.sampled_from([2, 3, 4])), "seed": draw(gen.seeds())}
+
+
+def check_wide_sketch(case):
+    m, n, R, P, p = case["m"], case["n"], case["R"], case["P"], case["p"]
+    out = Out()
+    rng = np.random.RandomState(case["mseed"])
+
+    def factor(k):
+        Qm = ref.qeye(k)
+        for _ in range(2):
+            u = np.round(rng.uniform(-1.0, 1.0, (k, 4)) * 32.0) / 32.0
+            if not u.any():
+                u[0, 0] = 1.0
+            Qm = ref.qmm(gen.householder(u), Qm)
+        return Qm
+
+    sv = 0.8 ** np.arange(R)
+    A = ref.qmm(ref.scale_cols(factor(m)[:, :R], sv), ref.conjT(factor(n)[:, :R]))
+    an = ref.fro(A)
+    Aq = Q(np.ldexp(A, p))
+    h0 = ahash(Aq)
+    out.label(case["algo"], "extreme_scale" if p else "wide_sketch", f"R+P={R + P}")
+    np.random.seed(case["seed"])
+    if case["algo"] == "rand_qsvd":
+        site = "rand_qsvd(exact rank R)"
+        ok, r = out.call(site, L.qsvd.rand_qsvd, Aq, R, oversample=P, n_iter=case["n_iter"])
+    else:
+        site = "pass_eff_qsvd(exact rank R)"
+        ok, r = out.call(site, L.qsvd.pass_eff_qsvd, Aq, R, oversample=P, n_passes=case["n_passes"])
+    out.true(site + ":argument unchanged", ahash(Aq) == h0, "input modified")
+    if not ok:
+        return out
+    if not out.true(site + ":returns (U, s, V)", isinstance(r, tuple) and len(r) == 3, repr(type(r))):
+        return out
+    Uf, s, Vf = F(r[0]), np.asarray(r[1], dtype=float), F(r[2])
+    if not out.true(site + ":shapes", Uf.shape == (m, R, 4) and s.shape == (R,) and Vf.shape == (n, R, 4), f"{Uf.shape} {s.shape} {Vf.shape}"):
+        return out
+    if not out.true(site + ":finite", bool(np.all(np.isfinite(s)) and np.all(np.isfinite(Uf)) and np.all(np.isfinite(Vf))), f"s={s[:4]}"):
+        return out
+    sb = np.ldexp(s, -p)
+    tol = 1e-8          # the clean library is at 1e-13 here (well separated spectrum, cond 0.8^-R <= 2e3)
+    out.le(site + ":U orthonormal columns", ref.unitarity_defect(Uf), tol)
+    out.le(site + ":V orthonormal columns", ref.unitarity_defect(Vf), tol)
+    out.true(site + ":s non-negative, non-increasing", bool(np.all(sb >= 0) and np.all(np.diff(sb) <= tol)), f"{sb[:6]}")
+    out.le(site + ":interlacing s_i <= sigma_i", float(np.max(sb - sv)), tol)
+    rec = ref.qmm(ref.scale_cols(Uf, sb), ref.conjT(Vf))
+    out.le(site + ":exact when rank(A) <= R", ref.fro(A - rec), tol * an, f"R={R} P={P} shape {m}x{n}")
+    out.nontrivial = True
+    out.sample = {"shape": [m, n], "R": R, "P": P, "p": p, "algo": case["algo"]}
+    return out
+
+
 PROPERTY = Property(
     id="C12",
     title="Randomized Q-SVDs: orthonormal factors, interlacing values, exact on low rank",
@@ -232,7 +307,9 @@ PROPERTY = Property(
              Clause("rsvd_moderate_size", check_rsvd, strategy=lambda tier: rsvd_cases(tier, size=(11, 24 if tier == "quick" else 40)),
                     budget={"quick": 40, "thorough": 400}, shrink=False),
              Clause("rsvd_long_dimension", check_rsvd, strategy=long_cases, budget={"quick": 320, "thorough": 3200},
-                    shrink=False)],
+                    shrink=False),
+             Clause("rsvd_wide_sketch_extreme_scale", check_wide_sketch, strategy=wide_sketch_cases,
+                    budget={"quick": 12, "thorough": 150}, shrink=False)],
     assumptions=[
         "the library's global numpy RNG is seeded by the harness with a generated integer right before each call",
         "only deterministic consequences are checked on every draw (shapes, orthonormality, interlacing, error sandwich, "
